@@ -240,7 +240,7 @@ func TestVerif_C31(t *testing.T) {
 			eff = 5 // documented default
 		}
 		status := statuses[x.Choose(len(statuses), "status")]
-		initialOK := x.Bool("initial-allowed") // false first: rejected
+		initialOK := x.Bool("initial-allowed")                         // false first: rejected
 		rejectBy := x.Pick("rejected-by", "host", "query", "userinfo") // which part of a rejected URL is objectionable
 		chain := x.Choose(eff+3, "chain-length")
 		hopOK := make([]bool, chain+1)
@@ -316,10 +316,106 @@ func TestVerif_C31(t *testing.T) {
 		x.Outcome("max=%d by=%s chain=%d attempts=%d maxhops=%d %s", maxCfg, rejectBy, chain, len(hops), maxHops, vfC31ErrClass(err))
 	})
 
+	// ---- space 1b: histories of resolutions under DIFFERENT configs sharing one http.Client ----
+	// Every other space builds one config and resolves once. Here two (thorough: three)
+	// resolutions run one after the other through the same *http.Client (what two configs that
+	// leave HTTPClient nil do implicitly via http.DefaultClient), each under its own
+	// MaxRedirects and validator; each step's requests are judged against THAT step's config.
+	type vfC31Step struct {
+		maxR    int
+		lenient bool // validator accepts everything (still "a validator configured")
+		chain   int
+		lastBad bool // the last redirect target is on a host the strict validator rejects
+	}
+	var stepAlphabet []vfC31Step
+	for _, m := range []int{1, 3} {
+		for _, l := range []bool{false, true} {
+			for _, c := range []int{0, 2, 4} {
+				for _, b := range []bool{false, true} {
+					if b && c == 0 {
+						continue
+					}
+					stepAlphabet = append(stepAlphabet, vfC31Step{m, l, c, b})
+				}
+			}
+		}
+	}
+	venum.Explore(t, venum.Cfg{Name: "config-sequences", Shardable: true}, func(x *venum.X) {
+		nSteps := venum.QT(2, 3)
+		shared := !x.Bool("fresh-http-client-per-step")
+		reuseCfg := x.Bool("mutate-one-config-instead-of-building-new-ones")
+		o := &vfC31Origin{}
+		var cur []string // URLs of the chain being served
+		o.script = func(req *http.Request, nth int) vfC31Resp {
+			u := req.URL.String()
+			for i, cu := range cur {
+				if cu == u {
+					if i+1 < len(cur) {
+						return vfC31Resp{status: 302, location: cur[i+1], cl: -2}
+					}
+					return vfC31Resp{body: vfC31Body, cl: -2}
+				}
+			}
+			return vfC31Resp{status: 404, cl: -2}
+		}
+		client := &http.Client{Transport: o}
+		cfg := &ExternalLocationConfig{MaxRetries: 1, RetryDelay: time.Nanosecond, HTTPClient: client}
+		var trace []string
+		for si := 0; si < nSteps; si++ {
+			st := stepAlphabet[x.Choose(len(stepAlphabet), fmt.Sprintf("step%d", si+1))]
+			if !shared {
+				client = &http.Client{Transport: o}
+			}
+			if !reuseCfg {
+				cfg = &ExternalLocationConfig{MaxRetries: 1, RetryDelay: time.Nanosecond}
+			}
+			cfg.HTTPClient = client
+			cfg.MaxRedirects = st.maxR
+			validator := vfC31Validator(false, false)
+			if st.lenient {
+				validator = func(string) error { return nil }
+			}
+			cfg.URLValidator = validator
+			cur = cur[:0]
+			for i := 0; i <= st.chain; i++ {
+				h := fmt.Sprintf("ok%d.test", i)
+				if st.lastBad && i == st.chain {
+					h = fmt.Sprintf("bad%d.test", i)
+				}
+				cur = append(cur, fmt.Sprintf("https://%s/s%d/obj?sig=SECRETSIG", h, si))
+			}
+			first := cur[0]
+			before := len(o.seen)
+			pb, pm := MakeExternalLocationBatch(schema, first, sha)
+			rb, _, err := ResolveExternalLocation(pb, pm, cfg)
+			mine := o.seen[before:]
+			cls := fmt.Sprintf("C31:config-sequence:step%d", si+1)
+			for _, u := range mine {
+				if validator(u) != nil {
+					x.Failf(cls+":request-to-url-rejected-by-this-steps-validator", "step %d (MaxRedirects=%d strict validator, shared client=%v) sent a request for %s; history %v", si+1, st.maxR, shared, u, trace)
+					break
+				}
+			}
+			maxHops := 0
+			for _, h := range vfC31Attempts(mine, first) {
+				if h > maxHops {
+					maxHops = h
+				}
+			}
+			if maxHops > st.maxR {
+				x.Failf(cls+":more-redirects-than-this-steps-MaxRedirects", "step %d has MaxRedirects=%d but followed %d redirects (shared client=%v); history %v", si+1, st.maxR, maxHops, shared, trace)
+			}
+			vfC31Leaks(x, "config-sequence", err)
+			vfC31CheckResult(x, "config-sequence", rb, err)
+			trace = append(trace, fmt.Sprintf("{max=%d lenient=%v chain=%d lastBad=%v -> hops=%d %s}", st.maxR, st.lenient, st.chain, st.lastBad, maxHops, vfC31ErrClass(err)))
+		}
+		x.Outcome("shared=%v reuse=%v %v", shared, reuseCfg, trace)
+	})
+
 	// ---- space 2: body caps -----------------------------------------------------
 	venum.Explore(t, venum.Cfg{Name: "body-caps", Shardable: true}, func(x *venum.X) {
 		enc := x.Pick("encoding", "identity", "zstd", "zstd-2frames")
-		capRel := x.Choose(3, "body-vs-MaxFetchBytes") - 1   // -1: body one below the cap, 0: at, +1: one above
+		capRel := x.Choose(3, "body-vs-MaxFetchBytes") - 1 // -1: body one below the cap, 0: at, +1: one above
 		dcapRel := 0
 		if enc != "identity" {
 			dcapRel = x.Choose(3, "decoded-vs-MaxDecompressedBytes") - 1
